@@ -155,6 +155,41 @@ def run(tier):
                               {"line": line, "parsers_opened": list(order), "fortran_table_parser_returned": repr(g), "expected": repr(want_f)})
         finally:
             os.unlink(path)
+    # the readers selected for a data file are also the readers of its separate mesh file
+    try:
+        t2data, t2grids = core.repo_modules("t2data", "t2grids")
+        import shutil
+        wd = tempfile.mkdtemp(prefix="verif-c16m-")
+        try:
+            with core.quiet():
+                dat = t2data.t2data()
+                g = t2grids.t2grid()
+                g.add_rocktype(t2grids.rocktype("rock1"))
+                vols = [1000.0, 2500.0, 125.0]
+                for k_, v_ in enumerate(vols):
+                    g.add_block(t2grids.t2block("AA%3d" % (k_ + 1), v_, g.rocktype["rock1"]))
+                g.add_connection(t2grids.t2connection([g.blocklist[0], g.blocklist[1]], 1, [5.0, 5.0], 10.0, 0.0))
+                dat.grid = g
+                main, mesh = os.path.join(wd, "m.dat"), os.path.join(wd, "MESH")
+                dat.write(main, meshfilename=mesh)
+            txt = open(mesh).read()
+            forms = {"1.0000e+03": "0.1000D+04", "2.5000e+03": "0.2500+004", "1.2500e+02": "0.125E 03 "}
+            txt2 = txt
+            for a_, b_ in forms.items():
+                txt2 = txt2.replace(a_, b_).replace(a_.upper(), b_)
+            rep.case(("mesh-file-readers",))
+            if txt2 != txt:
+                open(mesh, "w").write(txt2)
+                with core.quiet():
+                    d2 = t2data.t2data(main, meshfilename=mesh, read_function=fff.fortran_read_function)
+                got = [b_.volume for b_ in d2.grid.blocklist]
+                if got != vols:
+                    rep.violation("read-function-selection:separate-mesh-file", "fortran_meaning",
+                                  {"volumes_in_mesh_file": list(forms.values()), "read": repr(got), "expected": vols})
+        finally:
+            shutil.rmtree(wd, ignore_errors=True)
+    except Exception as ex:
+        rep.violation("read-function-selection:separate-mesh-file:raises", "never_raises", {"error": repr(ex)})
     for t in texts[:3] + texts[-3:]:
         def safe(fn_, x_):
             try:
